@@ -413,7 +413,7 @@ func parseFunParams(s string) []FunParam {
 var modsets = map[string]string{}
 
 var clauseKW = map[string]bool{"fun": true, "modset": true, "pred": true, "func": true, "lemma": true, "props": true, "requires": true,
-	"modifies": true, "allocs": true, "ensures": true, "loop": true, "inline": true, "trusted": true, "assert": true, "case": true, "locks": true, "locked": true, "guarded": true, "hints": true}
+	"modifies": true, "allocs": true, "ensures": true, "loop": true, "inline": true, "trusted": true, "assert": true, "case": true, "locks": true, "locked": true, "guarded": true, "hints": true, "ghost": true}
 
 func (P *Program) loadContracts() error {
 	for name, pkg := range P.Pkgs {
@@ -513,6 +513,15 @@ func (P *Program) loadContractFile(pkg, file string) error {
 				return fmt.Errorf("%s:%d: guarded needs 'protects'", file, rc.line)
 			}
 			P.Guards = append(P.Guards, &GuardDef{Pkg: pkg, Mutex: strings.TrimSpace(rc.text[:k]), Items: splitTop(rc.text[k+len("protects"):], ',')})
+			cur = nil
+		case "ghost":
+			// ghost <name> <Go type>: a specification-only variable, modelled as a field of one ghost object per
+			// package. Code never touches it; only contracts (of callbacks) may list it under modifies.
+			fs := strings.Fields(rc.text)
+			if len(fs) < 2 {
+				return fmt.Errorf("%s:%d: ghost needs a name and a type", file, rc.line)
+			}
+			P.GhostDecls[pkg] = append(P.GhostDecls[pkg], [2]string{fs[0], strings.Join(fs[1:], " ")})
 			cur = nil
 		case "modset":
 			k := strings.Index(rc.text, "=")
